@@ -1,7 +1,6 @@
 package conc
 
 import (
-	"errors"
 	"fmt"
 	"math/rand"
 	"runtime"
@@ -163,23 +162,14 @@ func (s *StubFn) SetNewGasConfig(_ *vmcommon.GasCost) {}
 func (s *StubFn) IsActive() bool                      { return true }
 func (s *StubFn) IsInterfaceNil() bool                { return s == nil }
 
-// ErrClass maps an error of the container to the class names of spec/Concurrency.tla.
+// ErrClass maps an error of the container to the result classes of spec/Concurrency.tla: "nil" (no error) or "err".  WHICH error a
+// refused call reports (the key, the element, "already there") is not part of the property - a map is linearizable by what succeeds,
+// what fails and what is returned - so a refusal is a refusal (a doubly-invalid call may name either reason).
 func ErrClass(err error) string {
-	switch {
-	case err == nil:
+	if err == nil {
 		return "nil"
-	case errors.Is(err, builtInFunctions.ErrInvalidContainerKey):
-		return "invalidKey"
-	case errors.Is(err, builtInFunctions.ErrNilContainerElement):
-		return "nilElement"
-	case errors.Is(err, builtInFunctions.ErrEmptyFunctionName):
-		return "emptyName"
-	case errors.Is(err, builtInFunctions.ErrContainerKeyAlreadyExists):
-		return "exists"
-	case errors.Is(err, builtInFunctions.ErrWrongTypeInContainer):
-		return "wrongType"
 	}
-	return "other:" + err.Error()
+	return "err"
 }
 
 type contGet struct {
